@@ -10,10 +10,20 @@
 //   aft  = isSynced() after the (collective) resize of the source and/or target sets, syn2/nb2/{..} after rebuild<ign2>().
 // Global index type: environment C04_GTYPE = 0 int (ids as they are, default) | 1 long (with a long-based attribute enum and chunk
 // size 3) | 2 unsigned long long | 3 bigunsignedint<55> | 4 bigunsignedint<64> | 5 bigunsignedint<100> | rot (per case
-// 1 + FNV-1a(line) % 5).  For types 1..5 the small global id of the case is mapped, order preserving, to (0x80+id)*2^(w-8)+id
-// (w = 63, 64, 55, 64, 100: the top bits / the most significant digit are in use) and mapped back (low byte) for printing, so
-// the observation does not depend on the type.
-// A case that does not return within C04_CASE_TIMEOUT seconds (default 30) makes the process print
+// 1 + FNV-1a(line) % 6).  For types 1..5 the global id (< 2^14) of the case is mapped, order preserving, to (0x8000+id)*2^(w-16)+id
+// (w = 63 [0x4000], 64, 55, 64, 100: the top bits / the most significant digit are in use) and mapped back (low bits) for printing,
+// so the observation does not depend on the type.
+// Type 6 (dimension audit 2): short globals spread over the whole signed range (SHRT_MIN.., around 0, ..SHRT_MAX), an int
+// based attribute enum whose enumerators include -128, -1 and 127, the ends of the char ParallelLocalIndex stores (chunk size 5).
+// Communicators (dimension audit 2): kind 0 = the P-rank communicator, 1 = a duplicate, 2 = ranks reversed, 3 = ranks rotated
+// (comm rank = (rank+1) mod P).  Per-case stream: mode token = (ring|neighbour) + 2*kind + 8*pre; the decomposition, hints and the
+// printed records are indexed by the rank IN that communicator; pre = 1: the object is first constructed and BUILT over other,
+// non-trivial index sets on communicator 0 with the opposite includeSelf and is then re-targeted with setIndexSets + setIncludeSelf
+// (must behave like a fresh object: theorem C04_retarget_as_fresh).  incself token >= 2: per rank, bit r of (incself-2).
+// Histories: slot tokens of the constructor and of setIndexSets carry the communicator kind (slot + 16*kind); hints given with a
+// call are indexed by the rank in the communicator in force after that call; records stay indexed by process.
+// A case that does not return within C04_CASE_TIMEOUT seconds (default 30; case lines shorter than 4000 characters:
+// C04_SMALL_TIMEOUT, default the same) makes the process print
 // "ERROR C04-HANG ..." to stderr and exit(86); vcheck.run_cases attributes that to the case.
 #include <config.h>
 #include <mpi.h>
@@ -47,18 +57,27 @@ static void pmpi_sched_counters(unsigned long long *a, unsigned long long *b, un
 
 enum Attr { a0, a1, a2, a3, a4, a5, a6, a7 };
 enum AttrL : long { l0, l1, l2, l3, l4, l5, l6, l7 };
+enum AttrS : int { s0 = -128, s1 = -1, s2 = 0, s3 = 1, s4 = 127, s5 = 2, s6 = -2, s7 = 64 };
+// attribute numbers of the case file <-> enumerators
+template<class A> struct AEnc { static A enc(int a) { return (A) a; } static int dec(A a) { return (int) a; } };
+template<> struct AEnc<AttrS> {
+  static AttrS enc(int a) { static const AttrS t[8] = {s0, s1, s2, s3, s4, s5, s6, s7}; return t[a & 7]; }
+  static int dec(AttrS a) { static const AttrS t[8] = {s0, s1, s2, s3, s4, s5, s6, s7}; for (int i = 0; i < 8; ++i) if (t[i] == a) return i; return 99; } };
 
 // order-preserving embedding of the small ids into the global index type
 template<class G> struct Enc;
 template<> struct Enc<int> { static int enc(int id) { return id; } static int dec(int v) { return v; } };
-template<> struct Enc<long> { static long enc(int id) { return ((long) (0x80 + id) << 55) + id; } static int dec(long v) { return (int) (v & 0xff); } };
+template<> struct Enc<long> { static long enc(int id) { return ((long) (0x4000 + id) << 47) + id; } static int dec(long v) { return (int) (v & 0x3fff); } };
 template<> struct Enc<unsigned long long> {
-  static unsigned long long enc(int id) { return ((unsigned long long) (0x80 + id) << 56) + (unsigned long long) id; }
-  static int dec(unsigned long long v) { return (int) (v & 0xff); } };
+  static unsigned long long enc(int id) { return ((unsigned long long) (0x8000 + id) << 48) + (unsigned long long) id; }
+  static int dec(unsigned long long v) { return (int) (v & 0x7fff); } };
+template<> struct Enc<short> {
+  static short enc(int id) { return (short) (id < 8 ? -32768 + id : id < 16 ? id - 12 : 32767 - (10000 - id)); }
+  static int dec(short v) { return v < -16000 ? v + 32768 : v < 8 ? v + 12 : v - 32767 + 10000; } };
 template<int k> struct Enc<Dune::bigunsignedint<k> > {
   typedef Dune::bigunsignedint<k> B;
-  static B enc(int id) { return (B(std::uintmax_t(0x80 + id)) << (k - 8)) + B(std::uintmax_t(id)); }
-  static int dec(const B& v) { return (int) (v.touint() & 0xffu); } };
+  static B enc(int id) { return (B(std::uintmax_t(0x8000 + id)) << (k - 16)) + B(std::uintmax_t(id)); }
+  static int dec(const B& v) { return (int) (v.touint() & 0x7fffu); } };
 
 static int g_rank = 0;
 static volatile long g_case = 0;
@@ -75,6 +94,7 @@ struct P4 { int g, li, a, pub; bool operator==(const P4& o) const { return g == 
 typedef std::vector<P4> Set;
 struct Case {
   int P, two, ign, incself, mode; unsigned long long seed; int ign2, resize;
+  int ck = 0, pre = 0;                      // communicator kind, pre-existing state
   std::vector<Set> src[2], dst[2];
   std::vector<std::vector<int> > hints, orders;
 };
@@ -97,6 +117,7 @@ static bool parse(const std::string& line, Case& c)
   std::istringstream is(line);
   if (!(is >> c.P >> c.two >> c.ign >> c.incself >> c.mode >> c.seed >> c.ign2 >> c.resize)) return false;
   if (c.P < 1 || c.P > 64) return false;
+  c.ck = (c.mode >> 1) & 3; c.pre = (c.mode >> 3) & 1; c.mode &= 1;
   for (int ph = 0; ph < 2; ++ph) {
     c.src[ph].resize(c.P); c.dst[ph].resize(c.P);
     for (int r = 0; r < c.P; ++r) if (!rdset(is, c.src[ph][r]) || !rdset(is, c.dst[ph][r])) return false;
@@ -112,7 +133,7 @@ template<class PIS>
 static void fill(PIS& s, const Set& c)
 {
   s.beginResize();
-  for (std::size_t i = c.size(); i-- > 0;) s.add(Enc<typename PIS::GlobalIndex>::enc(c[i].g), typename PIS::LocalIndex((std::size_t) c[i].li, (typename PIS::LocalIndex::Attribute) c[i].a, c[i].pub != 0));
+  for (std::size_t i = c.size(); i-- > 0;) s.add(Enc<typename PIS::GlobalIndex>::enc(c[i].g), typename PIS::LocalIndex((std::size_t) c[i].li, AEnc<typename PIS::LocalIndex::Attribute>::enc(c[i].a), c[i].pub != 0));
   s.endResize();
 }
 // one beginResize/endResize that turns the content `from` into the content `to`
@@ -122,10 +143,10 @@ static void resize_to(PIS& s, const Set& from, const Set& to)
   auto has = [](const Set& v, const P4& x) { for (auto& y : v) if (y == x) return true; return false; };
   s.beginResize();
   for (auto it = s.begin(); it != s.end(); ++it) {
-    P4 x{Enc<typename PIS::GlobalIndex>::dec(it->global()), (int) it->local().local(), (int) it->local().attribute(), it->local().isPublic() ? 1 : 0};
+    P4 x{Enc<typename PIS::GlobalIndex>::dec(it->global()), (int) it->local().local(), AEnc<typename PIS::LocalIndex::Attribute>::dec(it->local().attribute()), it->local().isPublic() ? 1 : 0};
     if (!has(to, x)) s.markAsDeleted(it);
   }
-  for (std::size_t i = to.size(); i-- > 0;) if (!has(from, to[i])) s.add(Enc<typename PIS::GlobalIndex>::enc(to[i].g), typename PIS::LocalIndex((std::size_t) to[i].li, (typename PIS::LocalIndex::Attribute) to[i].a, to[i].pub != 0));
+  for (std::size_t i = to.size(); i-- > 0;) if (!has(from, to[i])) s.add(Enc<typename PIS::GlobalIndex>::enc(to[i].g), typename PIS::LocalIndex((std::size_t) to[i].li, AEnc<typename PIS::LocalIndex::Attribute>::enc(to[i].a), to[i].pub != 0));
   s.endResize();
 }
 
@@ -135,8 +156,8 @@ static void plist(std::ostream& os, const L& l)
   bool first = true;
   for (auto it = l.begin(); it != l.end(); ++it) {
     const auto& p = it->localIndexPair();
-    os << (first ? "" : " ") << Enc<G>::dec(p.global()) << "." << p.local().local() << "." << (int) p.local().attribute() << "."
-       << (p.local().isPublic() ? 1 : 0) << "." << (int) it->attribute();
+    os << (first ? "" : " ") << Enc<G>::dec(p.global()) << "." << p.local().local() << "." << AEnc<decltype(p.local().attribute())>::dec(p.local().attribute()) << "."
+       << (p.local().isPublic() ? 1 : 0) << "." << AEnc<decltype(p.local().attribute())>::dec(it->attribute());
     first = false;
   }
 }
@@ -177,8 +198,10 @@ static void pmap_guarded(std::ostream& os, const RI& ri, const char* nb)
 }
 
 template<class G, class A, int N>
-static void run_case(std::ostream& os, const Case& c, int rank, MPI_Comm comm)
+static void run_case(std::ostream& os, const Case& c, int wrank, const std::vector<MPI_Comm>& comms)
 {
+  MPI_Comm comm = comms[c.ck];
+  int rank; MPI_Comm_rank(comm, &rank);             // everything of the case is indexed by the rank in the case's communicator
   typedef Dune::ParallelLocalIndex<A> LI;
   typedef Dune::ParallelIndexSet<G, LI, N> PIS;
   typedef Dune::RemoteIndices<PIS> RI;
@@ -189,7 +212,21 @@ static void run_case(std::ostream& os, const Case& c, int rank, MPI_Comm comm)
   const bool two = c.two >= 2 ? (((c.two - 2) >> rank) & 1) != 0 : c.two != 0;
   if (two) fill(T, c.dst[0][rank]);
   PIS& tgt = two ? T : S;
-  RI ri(S, tgt, comm, c.mode ? c.hints[rank] : std::vector<int>(), c.incself != 0);
+  const bool inc = c.incself >= 2 ? (((c.incself - 2) >> rank) & 1) != 0 : c.incself != 0;
+  // pre-existing state: the object has been built over OTHER sets (the phase-2 contents under the numbering of communicator 0,
+  // resized once more so that their seqNo differs) on communicator 0, ring mode, with the opposite includeSelf
+  PIS S0, T0;
+  std::unique_ptr<RI> rip;
+  if (c.pre) {
+    fill(S0, c.src[1][wrank]); fill(T0, c.dst[1][wrank].empty() ? c.src[0][wrank] : c.dst[1][wrank]);
+    S0.beginResize(); S0.endResize(); T0.beginResize(); T0.endResize();
+    rip.reset(new RI(S0, T0, comms[0], std::vector<int>(), !inc));
+    rip->template rebuild<true>();
+    if (c.mode) rip->setIndexSets(S, tgt, comm, c.hints[rank]); else rip->setIndexSets(S, tgt, comm);
+    rip->setIncludeSelf(inc);
+  } else
+    rip.reset(new RI(S, tgt, comm, c.mode ? c.hints[rank] : std::vector<int>(), inc));
+  RI& ri = *rip;
   os << "r" << rank << " pre=" << (ri.isSynced() ? 1 : 0);
   pmpi_sched_reseed(c.seed);
   if (c.ign) ri.template rebuild<true>(); else ri.template rebuild<false>();
@@ -210,9 +247,9 @@ static void run_case(std::ostream& os, const Case& c, int rank, MPI_Comm comm)
 
 
 // ---- object histories (argv: hist <file>): ONE RemoteIndices object re-used; case format see ml/C04_driver.ml -------------
-struct HOp { int kind; int slot, hintflag, b, ign, cmpinc, ws, wd, m; std::vector<std::vector<int> > hints; };
+struct HOp { int kind; int slot, hintflag, b, ign, cmpinc, ws, wd, m; int ck = 0; std::vector<std::vector<int> > hints; };
 struct HCase {
-  int P, two; unsigned long long seed; int M;
+  int P, two; unsigned long long seed; int M; int cck = 0;
   std::vector<std::vector<Set> > dsrc, ddst;      // [m][rank]
   std::vector<int> slot0;
   int ckind, cslot, chf, cinc; std::vector<std::vector<int> > chints;
@@ -234,6 +271,7 @@ static bool parse_hist(const std::string& line, HCase& c)
   int ns; if (!(is >> ns) || ns < 1 || ns > 8) return false;
   c.slot0.resize(ns); for (auto& x : c.slot0) { is >> x; if (x < 0 || x >= c.M) return false; }
   if (!(is >> c.ckind >> c.cslot >> c.chf >> c.cinc)) return false;
+  c.cck = (c.cslot >> 4) & 3; c.cslot &= 15;
   if (c.cslot < 0 || c.cslot >= ns) return false;
   if (c.chf && !rdhints(is, c.P, c.chints)) return false;
   int nops; if (!(is >> nops) || nops < 0 || nops > 1000) return false;
@@ -241,7 +279,7 @@ static bool parse_hist(const std::string& line, HCase& c)
   for (auto& o : c.ops) {
     if (!(is >> o.kind)) return false;
     switch (o.kind) {
-      case 1: is >> o.slot >> o.hintflag; if (o.slot < 0 || o.slot >= ns) return false; if (o.hintflag && !rdhints(is, c.P, o.hints)) return false; break;
+      case 1: is >> o.slot >> o.hintflag; o.ck = (o.slot >> 4) & 3; o.slot &= 15; if (o.slot < 0 || o.slot >= ns) return false; if (o.hintflag && !rdhints(is, c.P, o.hints)) return false; break;
       case 2: if (!rdhints(is, c.P, o.hints)) return false; break;
       case 3: is >> o.b; break;
       case 4: break;
@@ -254,8 +292,11 @@ static bool parse_hist(const std::string& line, HCase& c)
 }
 
 template<class G, class A, int N>
-static void run_hist(std::ostream& os, const HCase& c, int rank, MPI_Comm comm)
+static void run_hist(std::ostream& os, const HCase& c, int rank, const std::vector<MPI_Comm>& comms)
 {
+  int ck = c.cck;                                   // kind of the communicator given last
+  MPI_Comm comm = comms[ck];
+  int cr; MPI_Comm_rank(comm, &cr);                 // this process's rank in it: hints are indexed by it
   typedef Dune::ParallelLocalIndex<A> LI;
   typedef Dune::ParallelIndexSet<G, LI, N> PIS;
   typedef Dune::RemoteIndices<PIS> RI;
@@ -271,22 +312,22 @@ static void run_hist(std::ostream& os, const HCase& c, int rank, MPI_Comm comm)
   int cur = c.cslot;
   std::unique_ptr<RI> ri;
   if (c.ckind == 0) {
-    if (c.chf) ri.reset(new RI(S[cur], tgt(cur), comm, c.chints[rank], c.cinc != 0));
+    if (c.chf) ri.reset(new RI(S[cur], tgt(cur), comm, c.chints[cr], c.cinc != 0));
     else if (c.cinc) ri.reset(new RI(S[cur], tgt(cur), comm, std::vector<int>(), true));
     else ri.reset(new RI(S[cur], tgt(cur), comm));                  // both defaults
   } else {
     ri.reset(new RI());
-    if (c.chf) ri->setIndexSets(S[cur], tgt(cur), comm, c.chints[rank]); else ri->setIndexSets(S[cur], tgt(cur), comm);
+    if (c.chf) ri->setIndexSets(S[cur], tgt(cur), comm, c.chints[cr]); else ri->setIndexSets(S[cur], tgt(cur), comm);
     ri->setIncludeSelf(c.cinc != 0);
   }
   pmpi_sched_reseed(c.seed);
   for (const HOp& o : c.ops) {
     switch (o.kind) {
       case 1:
-        cur = o.slot;
-        if (o.hintflag) ri->setIndexSets(S[cur], tgt(cur), comm, o.hints[rank]); else ri->setIndexSets(S[cur], tgt(cur), comm);
+        cur = o.slot; ck = o.ck; comm = comms[ck]; MPI_Comm_rank(comm, &cr);
+        if (o.hintflag) ri->setIndexSets(S[cur], tgt(cur), comm, o.hints[cr]); else ri->setIndexSets(S[cur], tgt(cur), comm);
         break;
-      case 2: ri->setNeighbours(o.hints[rank]); break;
+      case 2: ri->setNeighbours(o.hints[cr]); break;
       case 3: ri->setIncludeSelf(o.b != 0); break;
       case 4: ri->free(); break;
       case 5: {
@@ -345,11 +386,21 @@ int main(int argc, char** argv)
   MPI_Comm_size(MPI_COMM_WORLD, &np);
   const int rank = g_rank;
   int tmo = std::getenv("C04_CASE_TIMEOUT") ? std::atoi(std::getenv("C04_CASE_TIMEOUT")) : 30;
+  // small cases (the bulk) take milliseconds: a shorter limit keeps trees that make many cases hang affordable
+  int tmo_small = std::getenv("C04_SMALL_TIMEOUT") ? std::atoi(std::getenv("C04_SMALL_TIMEOUT")) : tmo;
   std::signal(SIGALRM, on_alarm);
   const char* ge = std::getenv("C04_GTYPE");
   int gtype_env = !ge ? 0 : (std::string(ge) == "rot" ? -1 : std::atoi(ge));
   std::vector<MPI_Comm> sub(np + 1, MPI_COMM_NULL);
   for (int P = 1; P <= np; ++P) MPI_Comm_split(MPI_COMM_WORLD, rank < P ? 0 : MPI_UNDEFINED, rank, &sub[P]);
+  // comms[P][kind]: 0 the P-rank communicator, 1 a duplicate, 2 ranks reversed, 3 ranks rotated by one
+  std::vector<std::vector<MPI_Comm> > comms(np + 1, std::vector<MPI_Comm>(4, MPI_COMM_NULL));
+  for (int P = 1; P <= np; ++P) if (sub[P] != MPI_COMM_NULL) {
+    comms[P][0] = sub[P];
+    MPI_Comm_dup(sub[P], &comms[P][1]);
+    MPI_Comm_split(sub[P], 0, P - 1 - rank, &comms[P][2]);
+    MPI_Comm_split(sub[P], 0, (rank + 1) % P, &comms[P][3]);
+  }
   const bool hist = argc >= 3 && std::string(argv[1]) == "hist";
   std::ifstream in(argv[argc - 1]);
   std::string line;
@@ -361,24 +412,26 @@ int main(int argc, char** argv)
     std::string mine;
     if (ok && rank < c.P) {
       std::ostringstream os;
-      alarm(tmo);
+      alarm(line.size() < 4000 ? tmo_small : tmo);
       int gt = gtype_env;
-      if (gt < 0) gt = 1 + (int) (fnv(line) % 5u);
+      if (gt < 0) gt = 1 + (int) (fnv(line) % 6u);
       if (hist) switch (gt) {
-        case 1: run_hist<long, AttrL, 3>(os, hc, rank, sub[c.P]); break;
-        case 2: run_hist<unsigned long long, Attr, 8>(os, hc, rank, sub[c.P]); break;
-        case 3: run_hist<Dune::bigunsignedint<55>, Attr, 8>(os, hc, rank, sub[c.P]); break;
-        case 4: run_hist<Dune::bigunsignedint<64>, Attr, 8>(os, hc, rank, sub[c.P]); break;
-        case 5: run_hist<Dune::bigunsignedint<100>, Attr, 8>(os, hc, rank, sub[c.P]); break;
-        default: run_hist<int, Attr, 8>(os, hc, rank, sub[c.P]); break;
+        case 1: run_hist<long, AttrL, 3>(os, hc, rank, comms[c.P]); break;
+        case 2: run_hist<unsigned long long, Attr, 8>(os, hc, rank, comms[c.P]); break;
+        case 3: run_hist<Dune::bigunsignedint<55>, Attr, 8>(os, hc, rank, comms[c.P]); break;
+        case 4: run_hist<Dune::bigunsignedint<64>, Attr, 8>(os, hc, rank, comms[c.P]); break;
+        case 5: run_hist<Dune::bigunsignedint<100>, Attr, 8>(os, hc, rank, comms[c.P]); break;
+        case 6: run_hist<short, AttrS, 5>(os, hc, rank, comms[c.P]); break;
+        default: run_hist<int, Attr, 8>(os, hc, rank, comms[c.P]); break;
       }
       else switch (gt) {
-        case 1: run_case<long, AttrL, 3>(os, c, rank, sub[c.P]); break;
-        case 2: run_case<unsigned long long, Attr, 8>(os, c, rank, sub[c.P]); break;
-        case 3: run_case<Dune::bigunsignedint<55>, Attr, 8>(os, c, rank, sub[c.P]); break;
-        case 4: run_case<Dune::bigunsignedint<64>, Attr, 8>(os, c, rank, sub[c.P]); break;
-        case 5: run_case<Dune::bigunsignedint<100>, Attr, 8>(os, c, rank, sub[c.P]); break;
-        default: run_case<int, Attr, 8>(os, c, rank, sub[c.P]); break;
+        case 1: run_case<long, AttrL, 3>(os, c, rank, comms[c.P]); break;
+        case 2: run_case<unsigned long long, Attr, 8>(os, c, rank, comms[c.P]); break;
+        case 3: run_case<Dune::bigunsignedint<55>, Attr, 8>(os, c, rank, comms[c.P]); break;
+        case 4: run_case<Dune::bigunsignedint<64>, Attr, 8>(os, c, rank, comms[c.P]); break;
+        case 5: run_case<Dune::bigunsignedint<100>, Attr, 8>(os, c, rank, comms[c.P]); break;
+        case 6: run_case<short, AttrS, 5>(os, c, rank, comms[c.P]); break;
+        default: run_case<int, Attr, 8>(os, c, rank, comms[c.P]); break;
       }
       alarm(0);
       mine = os.str();
@@ -395,7 +448,11 @@ int main(int argc, char** argv)
     if (rank == 0) {
       if (!ok) { std::cout << "BADCASE" << std::endl; continue; }
       std::string out;
-      for (int r = 0; r < c.P; ++r) { if (r) out += " ; "; out.append(rb.data() + displs[r], lens[r]); }
+      for (int i = 0; i < c.P; ++i) {
+        // per-case stream: record i comes from the process with rank i in the case's communicator
+        int r = hist ? i : (c.ck == 2 ? c.P - 1 - i : c.ck == 3 ? (i + c.P - 1) % c.P : i);
+        if (i) out += " ; "; out.append(rb.data() + displs[r], lens[r]);
+      }
       std::cout << out << std::endl;
     }
   }
@@ -404,7 +461,7 @@ int main(int argc, char** argv)
   unsigned long long loc[3] = {sw, ro, dl}, glob[3] = {0, 0, 0};
   MPI_Reduce(loc, glob, 3, MPI_UNSIGNED_LONG_LONG, MPI_SUM, 0, MPI_COMM_WORLD);
   if (rank == 0) std::cerr << "C04-SHIM sweeps=" << glob[0] << " reordered=" << glob[1] << " delays=" << glob[2] << std::endl;
-  for (int P = 1; P <= np; ++P) if (sub[P] != MPI_COMM_NULL) MPI_Comm_free(&sub[P]);
+  for (int P = 1; P <= np; ++P) if (sub[P] != MPI_COMM_NULL) { for (int k = 1; k < 4; ++k) MPI_Comm_free(&comms[P][k]); MPI_Comm_free(&sub[P]); }
   MPI_Finalize();
   return 0;
 }
